@@ -161,7 +161,29 @@ impl ThreadCtl {
     /// Releases everything repeatedly until all threads are finished (cleanup path after
     /// an error, so that `join` cannot hang).
     pub fn drain(&self) {
-        let _ = self.run_schedule(|_| 0);
+        // Release every parked thread as soon as it parks, WITHOUT waiting for the others to
+        // be quiescent: after "a released thread blocks on a parked one" the blocked thread
+        // only gets on once the parked lock holder runs, so waiting for quiescence first (as
+        // run_schedule does) never ends and the caller's `join` hangs for ever.
+        let t0 = Instant::now();
+        let mut s = self.lock();
+        loop {
+            if !s.ts.iter().any(|t| matches!(t, TState::Running | TState::Parked(_))) {
+                return;
+            }
+            for ix in 0..s.ts.len() {
+                if matches!(s.ts[ix], TState::Parked(_)) {
+                    s.ts[ix] = TState::Running;
+                    s.go[ix] = true;
+                    self.thr_cv[ix].notify_all();
+                }
+            }
+            if t0.elapsed() > self.watchdog * 4 {
+                return;
+            }
+            let (g, _) = self.ctl_cv.wait_timeout(s, Duration::from_millis(50)).unwrap_or_else(|e| e.into_inner());
+            s = g;
+        }
     }
 
     pub fn panic_of(&self, ix: usize) -> Option<String> {
